@@ -21,7 +21,7 @@ def wfuB (a : UTab) : Bool :=
   a.app.all (fun e =>
     (!a.sym.contains e.1.1 || e.2.all (fun r => r.children.length == 1 &&
         r.children.all (fun c => a.empty.getD c false == a.empty.getD e.1.2 false))) &&
-    (!a.inferral.contains e.1.1 || e.2.all (fun r => r.children.length == 1)) &&
+    (!a.inferral.contains e.1.1 || e.2.all (fun r => decide (0 < r.children.length))) &&
     e.2.all (fun r => r.flags.possiblyEmpty || r.children.all (fun c => a.empty.getD c false == false)))
 
 theorem toU_apply_mem (a : UTab) (σ x : Nat) (r : RuleOut) (h : r ∈ a.toU.apply σ x) :
@@ -55,7 +55,7 @@ theorem wfuB_sound (a : UTab) (h : wfuB a = true) : WFU a.toU := by
     have hs : a.inferral.contains e.1.1 = true := by rw [hk]; exact List.contains_iff_mem.2 hσ
     rcases this.1.2 with e1 | e1
     · rw [hs] at e1; cases e1
-    · exact e1 r hm
+    · simpa using e1 r hm
   · intro σ x r hr hpe c hc
     obtain ⟨e, he, hk, hm⟩ := toU_apply_mem a σ x r hr
     have := h e he
